@@ -1,0 +1,38 @@
+//go:build verif
+// +build verif
+
+package cursor
+
+import "context"
+
+// Hooks for the C04/C16 correspondence checks (verification build only): exported wrappers around
+// unexported functions, nothing else.
+
+// VC04NewCursor is newCursor: a cursor over the iterators the factory hands out, outside of any provider
+func VC04NewCursor(ctx context.Context, state State, itf ItFactory) (Cursor, error) {
+	cur, err := newCursor(ctx, state, itf)
+	if err != nil {
+		return nil, err
+	}
+	return cur, nil
+}
+
+// VC04CloseCursor closes a cursor made by VC04NewCursor
+func VC04CloseCursor(c Cursor) {
+	if cur, ok := c.(*crsr); ok && cur != nil {
+		cur.close()
+	}
+}
+
+// VC04WrapItFactory replaces the ItFactory of a provider by wrap(current factory); false if pr is
+// not the provider of this package
+func VC04WrapItFactory(pr Provider, wrap func(ItFactory) ItFactory) bool {
+	p, ok := pr.(*provider)
+	if !ok {
+		return false
+	}
+	p.lock.Lock()
+	defer p.lock.Unlock()
+	p.Itf = wrap(p.Itf)
+	return true
+}
